@@ -247,3 +247,417 @@ Proof. induction 1; cbn [lsum]; lia. Qed.
 Lemma xs_total : lsum xs = lsum f.
 Proof. rewrite (lsum_perm _ _ xs_perm). apply lsum_perm. symmetry. apply Permutation_rev. Qed.
 End LeafWeight.
+
+(* ---- weight_add on the shapes that occur ------------------------------------------------------------------ *)
+Lemma wadd_shape d Fv Lv Fx Lx :
+  Lv < d * 2 ^ 24 -> Lx < d * 2 ^ 24 -> d <= 20 -> Fv + Fx < U32 ->
+  exists D, weight_add (enc Fv Lv) (enc Fx Lx) = enc (Fv + Fx) (D * 2 ^ 24) /\ 1 <= D <= d.
+Proof.
+  intros H1 H2 Hd HF.
+  rewrite weight_add_enc by (try assumption; lia).
+  exists (N.max (Lv / 2 ^ 24) (Lx / 2 ^ 24) + 1). split; [reflexivity|].
+  assert (Lv / 2 ^ 24 < d) by (apply N.div_lt_upper_bound; lia).
+  assert (Lx / 2 ^ 24 < d) by (apply N.div_lt_upper_bound; lia).
+  lia.
+Qed.
+
+Lemma take_SS lw as_ d0 s :
+  take lw as_ (S (S d0)) s =
+  do pw <- rd APkg (pkgw s) (S d0);
+  do cw <- rd ACurr (currw s) (S (S d0));
+  if pw <=? cw then (do s1 <- pm_take_pkg s (S (S d0)) (S d0) pw; do s2 <- take lw as_ (S d0) s1; take lw as_ (S d0) s2)
+  else pm_take_leaf lw as_ s (S (S d0)) cw.
+Proof. reflexivity. Qed.
+
+Section Refine.
+Variable f : list N.
+Notation n := (length f).
+Hypothesis Hn2 : (2 <= n)%nat.
+Hypothesis Hnmax : (n <= N.to_nat MAX_ALPHA_SIZE)%nat.
+Hypothesis Hf : Forall (fun x => x < U32) f.
+Hypothesis HB : N.of_nat (Nat.max n MCL) * lsum f < U32.
+Hypothesis HMCL : (MCL <= 20)%nat.
+
+Let lw := make_leaf_weight f.
+Let xs := xs_of f.
+Notation L := (ilev xs).
+Notation El := (ell xs).
+Notation Pk := (pk xs).
+
+Let Hxn : length xs = n := xs_length f.
+Let Hxn2 : (2 <= length xs)%nat.
+Proof. rewrite Hxn. exact Hn2. Qed.
+Let Hxs := xs_sorted f Hn2 Hnmax.
+Let IA := inv_all xs Hxn2 Hxs.
+
+Definition lvl_ok (s : pm_st) (d : nat) (I : il) : Prop :=
+  nth d (tree s) [] = ia I /\
+  (exists D, nth d (pkgw s) 0 = enc (ipkg I) (D * 2 ^ 24) /\ 1 <= D <= N.of_nat d) /\
+  (exists Lv, nth d (prevw s) 0 = enc (iprev I) Lv /\ Lv < N.of_nat d * 2 ^ 24) /\
+  nth d (currw s) 0 = nth (n - N.to_nat (hd 0 (ia I))) lw 0.
+
+Fixpoint Cons (d : nat) (s : pm_st) (t : nat) : Prop :=
+  match d with
+  | O => True
+  | S d1 => (2 <= t)%nat /\ (t <= 2 * n - 2)%nat /\ lvl_ok s (S d1) (L (S d1) t) /\
+            Cons d1 s (2 * Pk (S d1) t + 2)
+  end.
+
+Definition agree_at (e : nat) (s s' : pm_st) : Prop :=
+  nth e (tree s) [] = nth e (tree s') [] /\ nth e (pkgw s) 0 = nth e (pkgw s') 0 /\
+  nth e (prevw s) 0 = nth e (prevw s') 0 /\ nth e (currw s) 0 = nth e (currw s') 0.
+
+Lemma lvl_ok_agree s s' d I : agree_at d s s' -> lvl_ok s d I -> lvl_ok s' d I.
+Proof. intros [A1 [A2 [A3 A4]]] H. unfold lvl_ok in *. rewrite <- A1, <- A2, <- A3, <- A4. exact H. Qed.
+
+Lemma Cons_agree d : forall s s' t, (forall e, (e <= d)%nat -> agree_at e s s') -> Cons d s t -> Cons d s' t.
+Proof.
+  induction d as [|d1 IH]; intros s s' t HA H; [exact I|].
+  cbn [Cons] in *. destruct H as [H1 [H2 [H3 H4]]].
+  split; [exact H1|]. split; [exact H2|]. split.
+  - eapply lvl_ok_agree; [apply HA; lia|exact H3].
+  - eapply IH; [|exact H4]. intros e He. apply HA. lia.
+Qed.
+
+Lemma pkg_lt_U32 d1 t : (S d1 <= MCL)%nat -> (2 <= t)%nat -> (t <= 2 * n - 2)%nat -> ipkg (L (S d1) t) < U32.
+Proof.
+  intros Hd Ht Hle.
+  pose proof (pkg_bound xs Hxn2 Hxs d1 t Hd Ht) as H. rewrite Hxn in H. specialize (H Hle).
+  unfold xs in H. rewrite (xs_total f Hn2 Hnmax) in H. fold xs in H. lia.
+Qed.
+
+Lemma hd_ia d1 t : (2 <= t)%nat -> hd 0 (ia (L (S d1) t)) = N.of_nat (El (S d1) t).
+Proof. intro Ht. rewrite El_unfold. lia. Qed.
+
+Lemma agree_refl e s : agree_at e s s.
+Proof. repeat split. Qed.
+
+(* a leaf is taken at level d *)
+Lemma leaf_step s d1 t : wf s -> (S d1 <= MCL)%nat -> (2 <= t)%nat -> (S t <= 2 * n - 2)%nat ->
+  lvl_ok s (S d1) (L (S d1) t) -> (El (S d1) t < n)%nat -> L (S d1) (S t) = il_leaf xs (L (S d1) t) ->
+  exists s', pm_take_leaf lw (N.of_nat n) s (S d1) (nth (S d1) (currw s) 0) = Ok s' /\ wf s' /\
+             lvl_ok s' (S d1) (L (S d1) (S t)) /\ (forall e, e <> S d1 -> agree_at e s s') /\ cnt s' = cnt s.
+Proof.
+  intros Hwf Hd Ht Hle [Htree [[D [Epkg HD]] [[Lv [Eprev HLv]] Ecurr]]] Hlt Hnext.
+  pose proof (hd_ia d1 t Ht) as Hhd. set (e := El (S d1) t) in *. set (I := L (S d1) t) in *.
+  pose proof (lw_length f) as Hlw. fold lw in Hlw.
+  destruct (lw_leaf f Hn2 Hnmax Hf e Hlt) as [Lc [Ecw [HF [HL1 HL2]]]]. fold lw xs in Ecw, HF.
+  rewrite Hhd, Nnat.Nat2N.id in Ecurr. rewrite Ecw in Ecurr.
+  pose proof (take_leaf_ok lw (N.of_nat n) s (S d1) (nth (S d1) (currw s) 0) Hwf Hd) as TL.
+  cbn zeta in TL. rewrite Htree, Hhd in TL.
+  specialize (TL ltac:(lia) ltac:(lia)).
+  eexists. split; [exact TL|].
+  destruct Hwf as [W1 W2 W3 W4 W5 W6].
+  pose proof (inv_len _ _ _ (IA d1 t Ht)) as Ilen. fold I in Ilen.
+  assert (Hsum : iprev I + leafF xs e < U32).
+  { pose proof (pkg_lt_U32 d1 (S t) Hd ltac:(lia) Hle) as H. rewrite Hnext in H.
+    unfold il_leaf in H; cbn [ipkg] in H. rewrite Hhd, Nnat.Nat2N.id in H. exact H. }
+  split; [|split; [|split]].
+  - constructor; cbn [tree pkgw prevw currw]; rewrite ?upd_length; auto.
+    + intros e0 He0. rewrite nth_upd_rows by lia. destruct (e0 =? S d1)%nat; [|apply W2; exact He0].
+      cbn [length]. destruct (ia I); cbn [length tl] in *; lia.
+    + rewrite nth_upd_N by lia. cbn [Nat.eqb]. exact W6.
+  - rewrite Hnext. unfold lvl_ok, il_leaf; cbn [tree pkgw prevw currw ia ipkg iprev hd].
+    rewrite nth_upd_rows by lia. rewrite !nth_upd_N by lia. rewrite Nat.eqb_refl.
+    rewrite Hhd, Nnat.Nat2N.id. split; [reflexivity|]. split; [|split].
+    + rewrite Eprev, Ecurr.
+      destruct (wadd_shape (N.of_nat (S d1)) (iprev I) Lv (leafF xs e) Lc) as [D' [E' HD']]; try lia.
+      exists D'. split; [exact E'|lia].
+    + exists Lc. split; [exact Ecurr|lia].
+    + f_equal. lia.
+  - intros e0 He0. unfold agree_at; cbn [tree pkgw prevw currw].
+    rewrite nth_upd_rows by lia. rewrite !nth_upd_N by lia.
+    replace (e0 =? S d1)%nat with false by (symmetry; apply Nat.eqb_neq; exact He0). repeat split.
+  - reflexivity.
+Qed.
+
+(* a package is taken at level d0+2 *)
+Lemma pkg_step s d0 t lo : wf s -> (S (S d0) <= MCL)%nat -> (2 <= t)%nat -> (S t <= 2 * n - 2)%nat ->
+  lvl_ok s (S (S d0)) (L (S (S d0)) t) -> lvl_ok s (S d0) lo -> ipkg lo < U32 ->
+  L (S (S d0)) (S t) = il_pkg (L (S (S d0)) t) lo ->
+  exists s', pm_take_pkg s (S (S d0)) (S d0) (nth (S d0) (pkgw s) 0) = Ok s' /\ wf s' /\
+             lvl_ok s' (S (S d0)) (L (S (S d0)) (S t)) /\ (forall e, e <> S (S d0) -> agree_at e s s') /\ cnt s' = cnt s.
+Proof.
+  intros Hwf Hd Ht Hle [Htree [[D [Epkg HD]] [[Lv [Eprev HLv]] Ecurr]]]
+         [Ltree [[Dl [Lpkg HDl]] _]] Hlo Hnext.
+  set (I := L (S (S d0)) t) in *.
+  pose proof (take_pkg_ok s (S d0) (nth (S d0) (pkgw s) 0) Hwf Hd) as TP.
+  eexists. split; [exact TP|].
+  destruct Hwf as [W1 W2 W3 W4 W5 W6].
+  assert (Hsum : iprev I + ipkg lo < U32).
+  { pose proof (pkg_lt_U32 (S d0) (S t) Hd ltac:(lia) Hle) as H. rewrite Hnext in H. exact H. }
+  split; [|split; [|split]].
+  - constructor; cbn [tree pkgw prevw currw]; rewrite ?upd_length; auto.
+    + intros e0 He0. rewrite nth_upd_rows by lia. destruct (e0 =? S (S d0))%nat; [|apply W2; exact He0].
+      cbn [length]. rewrite firstn_length. pose proof (W2 (S d0) ltac:(lia)). lia.
+    + rewrite nth_upd_N by lia. cbn [Nat.eqb]. exact W6.
+  - rewrite Hnext. unfold lvl_ok, il_pkg; cbn [tree pkgw prevw currw ia ipkg iprev hd].
+    rewrite nth_upd_rows by lia. rewrite !nth_upd_N by lia. rewrite Nat.eqb_refl.
+    rewrite Htree, Ltree. split; [reflexivity|]. split; [|split].
+    + rewrite Eprev, Lpkg.
+      destruct (wadd_shape (N.of_nat (S (S d0))) (iprev I) Lv (ipkg lo) (Dl * 2 ^ 24)) as [D' [E' HD']]; try lia.
+      exists D'. split; [exact E'|lia].
+    + exists (Dl * 2 ^ 24). split; [exact Lpkg|lia].
+    + exact Ecurr.
+  - intros e0 He0. unfold agree_at; cbn [tree pkgw prevw currw].
+    rewrite nth_upd_rows by lia. rewrite !nth_upd_N by lia.
+    replace (e0 =? S (S d0))%nat with false by (symmetry; apply Nat.eqb_neq; exact He0). repeat split.
+  - reflexivity.
+Qed.
+
+Lemma leaf_lt_MAXW F Lc : F < U32 -> Lc < 2 ^ 17 -> enc F Lc < MAXW.
+Proof. unfold enc, U32, MAXW. lia. Qed.
+
+Lemma agree_trans e s1 s2 s3 : agree_at e s1 s2 -> agree_at e s2 s3 -> agree_at e s1 s3.
+Proof.
+  intros [A1 [A2 [A3 A4]]] [B1 [B2 [B3 B4]]]. unfold agree_at.
+  rewrite A1, A2, A3, A4. auto.
+Qed.
+
+(* one take at level d1+1, all levels below consistent: the array program follows the level sequences *)
+Lemma take_ref d1 : forall s t, wf s -> Cons (S d1) s t -> (S d1 <= MCL)%nat -> (S t <= 2 * n - 2)%nat ->
+  exists s', take lw (N.of_nat n) (S d1) s = Ok s' /\ wf s' /\ Cons (S d1) s' (S t) /\
+             (forall e, (S d1 < e)%nat -> agree_at e s s') /\ cnt s' = cnt s.
+Proof.
+  induction d1 as [|d0 IH]; intros s t Hwf HC Hd Hle.
+  - (* level 1 *)
+    cbn [Cons] in HC. destruct HC as [Ht [Ht2 [Hlv _]]].
+    pose proof Hlv as [Htree [_ [_ Ecurr]]].
+    pose proof (hd_ia 0 t Ht) as Hhd. rewrite Hhd, Nnat.Nat2N.id in Ecurr.
+    pose proof (inv_hi _ _ _ (IA 0 t Ht)) as Ihi. rewrite Hxn in Ihi.
+    cbn [take]. rewrite (rd_ok APkg (pkgw s) 0 0) by (rewrite (wf_pkg s Hwf); lia). cbn [bind].
+    rewrite (rd_ok ACurr (currw s) 1 0) by (rewrite (wf_curr s Hwf); lia). cbn [bind].
+    rewrite (wf_pkg0 s Hwf).
+    destruct (Nat.eq_dec (El 1 t) n) as [Heq|Hneq].
+    + (* leaves exhausted: nothing happens *)
+      rewrite Ecurr, Heq, Nat.sub_diag. change (nth 0 lw 0) with MAXW.
+      rewrite N.leb_refl. exists s.
+      assert (Hnext : L 1 (S t) = L 1 t).
+      { rewrite ilev_S by exact Ht. unfold istep. rewrite <- El_unfold.
+        destruct (Nat.ltb_spec (El 1 t) (length xs)) as [H|H]; [lia|reflexivity]. }
+      split; [reflexivity|]. split; [exact Hwf|]. split.
+      * cbn [Cons]. rewrite Hnext. split; [lia|]. split; [lia|]. split; [exact Hlv|exact I].
+      * split; [intros; apply agree_refl|reflexivity].
+    + assert (Hlt : (El 1 t < n)%nat) by lia.
+      destruct (lw_leaf f Hn2 Hnmax Hf _ Hlt) as [Lc [Ecw [HF [HL1 HL2]]]]. fold lw xs in Ecw, HF.
+      assert (Hcmp : (MAXW <=? nth 1 (currw s) 0) = false).
+      { rewrite Ecurr, Ecw. apply N.leb_gt. apply leaf_lt_MAXW; assumption. }
+      rewrite Hcmp.
+      assert (Hnext : L 1 (S t) = il_leaf xs (L 1 t)).
+      { rewrite ilev_S by exact Ht. unfold istep. rewrite <- El_unfold.
+        destruct (Nat.ltb_spec (El 1 t) (length xs)) as [H|H]; [reflexivity|lia]. }
+      destruct (leaf_step s 0 t Hwf Hd Ht Hle Hlv Hlt Hnext) as [s' [E1 [W' [Lv' [Ag Cn]]]]].
+      exists s'. split; [exact E1|]. split; [exact W'|]. split.
+      * cbn [Cons]. split; [lia|]. split; [lia|]. split; [exact Lv'|exact I].
+      * split; [|exact Cn]. intros e He. apply Ag. lia.
+  - (* level d0 + 2 *)
+    cbn [Cons] in HC. destruct HC as [Ht [Ht2 [Hlv [Ht3 [Ht4 [Hlo HClow]]]]]].
+    set (p := Pk (S (S d0)) t) in *. set (lo := L (S d0) (2 * p + 2)) in *.
+    pose proof Hlv as [Htree [_ [_ Ecurr]]].
+    pose proof Hlo as [_ [[Dl [Lpkg HDl]] _]].
+    pose proof (hd_ia (S d0) t Ht) as Hhd. rewrite Hhd, Nnat.Nat2N.id in Ecurr.
+    pose proof (IA (S d0) t Ht) as Inv0.
+    pose proof (inv_hi _ _ _ Inv0) as Ihi. rewrite Hxn in Ihi. pose proof (inv_t _ _ _ Inv0) as It.
+    assert (Hlo32 : ipkg lo < U32) by (apply pkg_lt_U32; lia).
+    rewrite take_SS. rewrite (rd_ok APkg (pkgw s) (S d0) 0) by (rewrite (wf_pkg s Hwf); lia). cbn [bind].
+    rewrite (rd_ok ACurr (currw s) (S (S d0)) 0) by (rewrite (wf_curr s Hwf); lia). cbn [bind].
+    (* the comparison of packed weights is the comparison of the level sequences *)
+    assert (Hdec : (nth (S d0) (pkgw s) 0 <=? nth (S (S d0)) (currw s) 0) =
+                   ((length xs <=? El (S (S d0)) t)%nat || (ipkg lo <? leafF xs (El (S (S d0)) t)))).
+    { rewrite Lpkg, Ecurr. destruct (Nat.leb_spec (length xs) (El (S (S d0)) t)) as [Hge|Hlt]; cbn [orb].
+      - replace (n - El (S (S d0)) t)%nat with 0%nat by lia. change (nth 0 lw 0) with MAXW.
+        apply N.leb_le. assert (enc (ipkg lo) (Dl * 2 ^ 24) < U64) by (apply enc_lt; unfold U32 in *; lia).
+        unfold MAXW, U64 in *. lia.
+      - destruct (lw_leaf f Hn2 Hnmax Hf (El (S (S d0)) t) ltac:(lia)) as [Lc [Ecw [HF [HL1 HL2]]]].
+        fold lw xs in Ecw, HF. rewrite Ecw.
+        destruct (N.ltb_spec (ipkg lo) (leafF xs (El (S (S d0)) t))) as [H|H].
+        + apply N.leb_le. apply enc_le; unfold U32; lia.
+        + apply N.leb_gt. apply enc_lt_iff; unfold U32; lia. }
+    assert (Hstep : L (S (S d0)) (S t) =
+                    if (length xs <=? El (S (S d0)) t)%nat || (ipkg lo <? leafF xs (El (S (S d0)) t))
+                    then il_pkg (L (S (S d0)) t) lo else il_leaf xs (L (S (S d0)) t)).
+    { rewrite ilev_S by exact Ht. unfold istep. rewrite <- El_unfold. fold (Pk (S (S d0)) t). reflexivity. }
+    rewrite Hdec. destruct ((length xs <=? El (S (S d0)) t)%nat || (ipkg lo <? leafF xs (El (S (S d0)) t))) eqn:Hb.
+    + (* package, then two takes one level down *)
+      destruct (pkg_step s d0 t lo Hwf Hd Ht Hle Hlv Hlo Hlo32 Hstep) as [s1 [E1 [W1 [Lv1 [Ag1 Cn1]]]]].
+      rewrite E1. cbn [bind].
+      assert (El' : El (S (S d0)) (S t) = El (S (S d0)) t).
+      { rewrite (El_unfold _ _ (S t)), Hstep. unfold il_pkg; cbn [ia hd]. rewrite <- El_unfold. reflexivity. }
+      assert (Pk' : Pk (S (S d0)) (S t) = S p) by (rewrite Pk_unfold, El'; unfold p; rewrite Pk_unfold; lia).
+      pose proof (K_bound xs Hxn2 Hxs (S d0) (S t) ltac:(lia)) as HK. rewrite Hxn in HK.
+      specialize (HK Hle). rewrite Pk' in HK.
+      assert (C1 : Cons (S d0) s1 (2 * p + 2)).
+      { eapply Cons_agree; [|cbn [Cons]; split; [exact Ht3|split; [exact Ht4|split; [exact Hlo|exact HClow]]]].
+        intros e He. apply Ag1. lia. }
+      destruct (IH s1 (2 * p + 2)%nat W1 C1 ltac:(lia) ltac:(lia)) as [s2 [E2 [W2 [C2 [Ag2 Cn2]]]]].
+      rewrite E2. cbn [bind].
+      destruct (IH s2 (S (2 * p + 2)) W2 C2 ltac:(lia) ltac:(lia)) as [s3 [E3 [W3 [C3 [Ag3 Cn3]]]]].
+      exists s3. split; [exact E3|]. split; [exact W3|]. split; [|split].
+      * cbn [Cons]. split; [lia|]. split; [lia|]. split.
+        -- eapply lvl_ok_agree; [|exact Lv1]. eapply agree_trans; [apply Ag2|apply Ag3]; lia.
+        -- rewrite Pk'. replace (2 * S p + 2)%nat with (S (S (2 * p + 2))) by lia. exact C3.
+      * intros e He. eapply agree_trans; [apply Ag1; lia|]. eapply agree_trans; [apply Ag2|apply Ag3]; lia.
+      * congruence.
+    + (* leaf *)
+      apply Bool.orb_false_iff in Hb as [Hb1 Hb2]. apply Nat.leb_gt in Hb1. rewrite Hxn in Hb1.
+      destruct (leaf_step s (S d0) t Hwf Hd Ht Hle Hlv Hb1 Hstep) as [s' [E1 [W' [Lv' [Ag Cn]]]]].
+      exists s'. split; [exact E1|]. split; [exact W'|]. split; [|split].
+      * assert (El' : El (S (S d0)) (S t) = S (El (S (S d0)) t)).
+        { rewrite (El_unfold _ _ (S t)), Hstep. unfold il_leaf; cbn [ia hd]. rewrite El_unfold. lia. }
+        assert (Pk' : Pk (S (S d0)) (S t) = p) by (rewrite Pk_unfold, El'; unfold p; rewrite Pk_unfold; lia).
+        assert (Clow : Cons (S d0) s' (2 * p + 2)).
+        { eapply Cons_agree; [|cbn [Cons]; split; [exact Ht3|split; [exact Ht4|split; [exact Hlo|exact HClow]]]].
+          intros e He. apply Ag. lia. }
+        cbn [Cons]. split; [lia|]. split; [lia|]. split; [exact Lv'|]. rewrite Pk'.
+        cbn [Cons] in Clow. exact Clow.
+      * intros e He. apply Ag. lia.
+      * exact Cn.
+Qed.
+
+(* ---- initialisation --------------------------------------------------------------------------------------- *)
+Definition init_row : list N := 2 :: repeat 0 MCL.
+
+Lemma zero_tree_row e : (e <= MCL)%nat -> nth e zero_tree [] = repeat 0 (S MCL).
+Proof.
+  intro He. unfold zero_tree. remember (repeat 0 (S MCL)) as z.
+  assert (G : forall k e0, (e0 < k)%nat -> nth e0 (repeat z k) [] = z).
+  { induction k as [|k IHk]; intros [|e0] H; cbn [repeat nth]; try lia; auto. apply IHk. lia. }
+  apply G. lia.
+Qed.
+
+Lemma init_loop_ok (as2 : nat) (wa wb wc : N) : n = S (S as2) ->
+  nth (S (S as2)) lw 0 = wa -> nth (S as2) lw 0 = wb -> nth as2 lw 0 = wc ->
+  forall k depth s, (depth + k = S MCL)%nat -> (1 <= depth)%nat -> wf s ->
+  (forall e, (depth <= e)%nat -> (e <= MCL)%nat -> nth e (tree s) [] = repeat 0 (S MCL)) ->
+  exists s', pm_init_loop k depth lw (S (S as2)) s = Ok s' /\ wf s' /\ cnt s' = cnt s /\
+    (forall e, (e < depth)%nat -> agree_at e s s') /\
+    (forall e, (depth <= e)%nat -> (e <= MCL)%nat ->
+       nth e (tree s') [] = init_row /\ nth e (pkgw s') 0 = weight_add wa wb /\
+       nth e (prevw s') 0 = wb /\ nth e (currw s') 0 = wc).
+Proof.
+  intros En Ea Eb Ec. pose proof (lw_length f) as Hlw. fold lw in Hlw.
+  induction k as [|k IHk]; intros depth s Hk Hd1 Hwf Hz.
+  - exists s. cbn [pm_init_loop]. split; [reflexivity|]. split; [exact Hwf|]. split; [reflexivity|].
+    split; [intros; apply agree_refl|]. intros e H1 H2. lia.
+  - cbn [pm_init_loop].
+    destruct Hwf as [W1 W2 W3 W4 W5 W6].
+    unfold wr2. rewrite (rd_ok ATree (tree s) depth []) by lia. cbn [bind].
+    rewrite (Hz depth ltac:(lia) ltac:(lia)).
+    rewrite wr_ok by (rewrite repeat_length; lia). cbn [bind].
+    rewrite wr_ok by lia. cbn [bind].
+    rewrite (rd_ok ALeaf lw (S (S as2)) 0) by lia. cbn [bind].
+    rewrite (rd_ok ALeaf lw (S as2) 0) by lia. cbn [bind].
+    rewrite (rd_ok ALeaf lw as2 0) by lia. cbn [bind].
+    rewrite Ea, Eb, Ec.
+    rewrite wr_ok by lia. cbn [bind]. rewrite wr_ok by lia. cbn [bind]. rewrite wr_ok by lia. cbn [bind].
+    set (s1 := mkst _ _ _ _ _).
+    assert (Hrow : upd (repeat 0 (S MCL)) 0 2 = init_row) by reflexivity.
+    assert (Wf1 : wf s1).
+    { constructor; unfold s1; cbn [tree pkgw prevw currw]; rewrite ?upd_length; auto.
+      - intros e He. rewrite nth_upd_rows by lia. destruct (e =? depth)%nat; [|apply W2; exact He].
+        rewrite upd_length, repeat_length. reflexivity.
+      - rewrite nth_upd_N by lia. replace (0 =? depth)%nat with false by (symmetry; apply Nat.eqb_neq; lia). exact W6. }
+    destruct (IHk (S depth) s1 ltac:(lia) ltac:(lia) Wf1) as [s' [E' [W' [C' [A' R']]]]].
+    { intros e H1 H2. unfold s1; cbn [tree]. rewrite nth_upd_rows by lia.
+      replace (e =? depth)%nat with false by (symmetry; apply Nat.eqb_neq; lia). apply Hz; lia. }
+    exists s'. split; [exact E'|]. split; [exact W'|]. split; [rewrite C'; reflexivity|]. split.
+    + intros e He. eapply agree_trans; [|apply A'; lia].
+      unfold agree_at, s1; cbn [tree pkgw prevw currw]. rewrite nth_upd_rows by lia. rewrite !nth_upd_N by lia.
+      replace (e =? depth)%nat with false by (symmetry; apply Nat.eqb_neq; lia). repeat split.
+    + intros e H1 H2. destruct (Nat.eq_dec e depth) as [->|Hne]; [|apply R'; lia].
+      destruct (A' depth ltac:(lia)) as [B1 [B2 [B3 B4]]]. rewrite <- B1, <- B2, <- B3, <- B4.
+      unfold s1; cbn [tree pkgw prevw currw]. rewrite nth_upd_rows by lia. rewrite !nth_upd_N by lia.
+      rewrite Nat.eqb_refl. rewrite Hrow. auto.
+Qed.
+
+Lemma pm_init_ok : exists s0, pm_init lw n zero_tree = Ok s0 /\ wf s0 /\ length (cnt s0) = COUNT_LEN /\
+  forall d, (d <= MCL)%nat -> Cons d s0 2.
+Proof.
+  assert (exists as2, n = S (S as2)) as [as2 En] by (exists (n - 2)%nat; lia).
+  pose proof (lw_length f) as Hlw. fold lw in Hlw.
+  unfold pm_init. rewrite wr_ok by (rewrite repeat_length; lia). cbn [bind].
+  set (s00 := mkst _ _ _ _ _).
+  assert (Wf0 : wf s00).
+  { constructor; unfold s00; cbn [tree pkgw prevw currw]; rewrite ?upd_length, ?repeat_length; auto.
+    all: try (unfold zero_tree; apply repeat_length).
+    all: try (intros e He; rewrite zero_tree_row by exact He; apply repeat_length). }
+  destruct (init_loop_ok as2 _ _ _ En eq_refl eq_refl eq_refl MCL 1%nat s00 ltac:(lia) ltac:(lia) Wf0)
+    as [s0 [E0 [W0 [C0 [_ R0]]]]].
+  { intros e _ He. unfold s00; cbn [tree]. apply zero_tree_row. exact He. }
+  rewrite <- En in E0, R0.
+  exists s0. split; [exact E0|]. split; [exact W0|]. split; [rewrite C0; unfold s00; cbn [cnt]; apply repeat_length|].
+  (* the two lightest leaves *)
+  destruct (lw_leaf f Hn2 Hnmax Hf 0%nat ltac:(lia)) as [L0 [E0w [HF0 [HL01 HL02]]]].
+  destruct (lw_leaf f Hn2 Hnmax Hf 1%nat ltac:(lia)) as [L1 [E1w [HF1 [HL11 HL12]]]].
+  fold lw xs in E0w, E1w, HF0, HF1. rewrite Nat.sub_0_r in E0w.
+  replace (n - 1)%nat with (S as2) in E1w by lia.
+  assert (Hsum : leafF xs 0 + leafF xs 1 < U32).
+  { pose proof (pkg_lt_U32 0 2 MCL_pos ltac:(lia) ltac:(lia)) as H. rewrite ilev_2 in H. exact H. }
+  assert (Hlvl : forall d1, (S d1 <= MCL)%nat -> lvl_ok s0 (S d1) (il_init xs)).
+  { intros d1 Hd. destruct (R0 (S d1) ltac:(lia) Hd) as [T1 [T2 [T3 T4]]].
+    unfold lvl_ok, il_init; cbn [ia ipkg iprev hd]. split; [exact T1|]. split; [|split].
+    - rewrite T2, E0w, E1w.
+      destruct (wadd_shape (N.of_nat (S d1)) (leafF xs 0) L0 (leafF xs 1) L1) as [D' [E' HD']]; try lia.
+      exists D'. split; [exact E'|lia].
+    - exists L1. rewrite T3, E1w. split; [reflexivity|lia].
+    - rewrite T4. f_equal. change (N.to_nat 2) with 2%nat. lia. }
+  induction d as [|d1 IHd]; intro Hd; [exact I|].
+  cbn [Cons]. split; [lia|]. split; [lia|]. split.
+  - rewrite ilev_2. apply Hlvl. exact Hd.
+  - rewrite Pk_unfold, El_init. cbn [Nat.sub Nat.mul Nat.add]. apply IHd. lia.
+Qed.
+
+(* ---- the whole of package_merge ------------------------------------------------------------------------------ *)
+Lemma widths_ok k : forall s t, wf s -> Cons MCL s t -> (t + 2 * k = 2 * n - 2)%nat ->
+  exists s', widths_spec k lw (N.of_nat n) s = Ok s' /\ wf s' /\ Cons MCL s' (2 * n - 2) /\ cnt s' = cnt s.
+Proof.
+  assert (EM : MCL = S (MCL - 1)) by (pose proof MCL_pos; lia).
+  induction k as [|k IHk]; intros s t Hwf HC Ht.
+  - exists s. cbn [widths_spec]. replace (2 * n - 2)%nat with t by lia. auto.
+  - cbn [widths_spec]. unfold width_spec.
+    rewrite EM in HC |- *.
+    destruct (take_ref (MCL - 1) s t Hwf HC ltac:(lia) ltac:(lia)) as [s1 [E1 [W1 [C1 [_ N1]]]]].
+    rewrite E1. cbn [bind].
+    destruct (take_ref (MCL - 1) s1 (S t) W1 C1 ltac:(lia) ltac:(lia)) as [s2 [E2 [W2 [C2 [_ N2]]]]].
+    rewrite E2. cbn [bind]. rewrite <- EM in *.
+    destruct (IHk s2 (S (S t)) W2 C2 ltac:(lia)) as [s' [E' [W' [C' N']]]].
+    exists s'. split; [exact E'|]. split; [exact W'|]. split; [exact C'|congruence].
+Qed.
+
+Lemma Cons_rows d : forall s, Cons d s (2 * n - 2) ->
+  forall h, (1 <= h)%nat -> (h <= d)%nat -> nth h (tree s) [] = ia (L h (2 * n - 2)).
+Proof.
+  induction d as [|d1 IHd]; intros s HC h H1 H2; [lia|].
+  cbn [Cons] in HC. destruct HC as [_ [_ [[Htree _] Hlow]]].
+  destruct (Nat.eq_dec h (S d1)) as [->|Hne]; [exact Htree|].
+  destruct (final_counts xs Hxn2 Hxs d1) as [_ P]. rewrite Hxn in P. rewrite P in Hlow.
+  replace (2 * (n - 2) + 2)%nat with (2 * n - 2)%nat in Hlow by lia.
+  apply IHd; [exact Hlow|lia|lia].
+Qed.
+
+(* package_merge never fails and leaves the rows of the level sequences in tree[1..MCL] *)
+Theorem package_merge_rows :
+  exists s, package_merge lw n = Ok s /\ wf s /\
+    forall h, (1 <= h)%nat -> (h <= MCL)%nat -> nth h (tree s) [] = ia (L h (2 * n - 2)).
+Proof.
+  destruct pm_init_ok as [s0 [E0 [W0 [L0 C0]]]].
+  destruct (widths_ok (n - 2) s0 2 W0 (C0 MCL (Nat.le_refl _)) ltac:(lia)) as [s' [E' [W' [C' _]]]].
+  assert (HCL : (S MCL <= COUNT_LEN)%nat) by (vm_compute; lia).
+  destruct (package_merge_spec lw n s0 s' E0 ltac:(lia) E') as [c' EP].
+  exists (set_cnt s' c'). split; [exact EP|]. split.
+  - destruct W'. constructor; auto.
+  - intros h H1 H2. unfold set_cnt; cbn [tree]. apply (Cons_rows MCL s' C' h H1 H2).
+Qed.
+
+(* the explicit stack count[] never needs more than MAX_CODE_LENGTH+1 entries: the width loop run on a
+   count[] array of exactly that length (all accesses bounds-checked) succeeds *)
+Theorem package_merge_small_stack c : length c = S MCL ->
+  exists s0 s' c', pm_init lw n zero_tree = Ok s0 /\
+    pm_widths (n - 2) lw (N.of_nat n) (set_cnt s0 c) = Ok (set_cnt s' c') /\ length c' = S MCL.
+Proof.
+  intro Hc. destruct pm_init_ok as [s0 [E0 [W0 [L0 C0]]]].
+  destruct (widths_ok (n - 2) s0 2 W0 (C0 MCL (Nat.le_refl _)) ltac:(lia)) as [s' [E' _]].
+  destruct (pm_widths_spec lw (N.of_nat n) (n - 2) s0 s' E' c ltac:(lia)) as [c' [Lc' W]].
+  exists s0, s', c'. split; [exact E0|]. split; [exact W|lia].
+Qed.
+End Refine.
